@@ -430,12 +430,12 @@ def read_meme(filename, n_motifs=None):
 				pwm[i] = list(map(float, line.strip("\r\n").split()))
 				i += 1
 
-			else:
-				motifs[motif] = torch.from_numpy(pwm.T)
-				motif, width, i = None, None, 0
+				if i == width:
+					motifs[motif] = torch.from_numpy(pwm.T)
+					motif, width, i = None, None, 0
 
-				if n_motifs is not None and len(motifs) == n_motifs:
-					break
+					if n_motifs is not None and len(motifs) == n_motifs:
+						break
 
 	return motifs
 
